@@ -16,6 +16,17 @@ const Dialect = "v4"
 // Patch is the decoded patch type of the package under test.
 type Patch = jsonpatch.Patch
 
+// NativeOpts: the legacy package has no options value; the harness's own record stands in for it.
+type NativeOpts = *Opts
+
+// Native returns a fresh copy.
+func (o Opts) Native() NativeOpts { c := o; return &c }
+
+// ApplyNative applies under the package settings of n.
+func ApplyNative(doc, patch []byte, n NativeOpts) (out []byte, err error, decodeErr error) {
+	return Apply(doc, patch, *n, "")
+}
+
 // Classify projects an error.
 func Classify(err error) ErrClass {
 	var c ErrClass
